@@ -1,5 +1,6 @@
 import MimeModel.Lemmas.Heap
 import MimeModel.Lemmas.HeapAbs
+import MimeModel.Lemmas.HeapBuild
 /-
   C03 at the level of pointers.  mime.go works with `*MIME` nodes linked by `children` slices and
   `parent` pointers; `match` descends through `children` and `cloneHierarchy` builds the result by
@@ -66,6 +67,28 @@ theorem cycle_never_ends (leafF : Nat → Nat) (fuel : Nat) : cloneHierarchy cyc
     on the heaps that represent `t` (run on every heap the harness dumps from the real code) -/
 theorem abs_iff {h : Heap α} {root : Ptr} {t : Tree α} : HeapAbs.abs h root = some t ↔ Rep h root none t :=
   HeapAbs.abs_iff
+
+/-- **tree.go's construction, in any order**: whatever the order of the `newMIME` calls (Go
+    initialises the package-level node variables in dependency order, and allocates `errMIME`, a
+    node outside the tree, in between), every node that has not yet been handed to a call as a
+    child represents its tree, with no parent — in particular the root, when everything else is used -/
+theorem construction_order_free {h : Heap α} {avail : List (Ptr × Tree α)} {p : Ptr} {t : Tree α}
+    (hs : HeapBuild.Sched h avail) (hm : (p, t) ∈ avail) : Rep h p none t := HeapBuild.sched_rep hs hm
+
+/-- the post-order construction (children first, left to right) is one such order, and the heap it
+    builds for the regenerated tree represents that tree -/
+theorem builtin_rep : Rep HeapBuild.builtinHeap.1 HeapBuild.builtinHeap.2 none Mime.Gen.builtin :=
+  HeapBuild.builtin_rep
+
+/-- **`Detect` on the heap built for the regenerated tree**: the pointer-level `match` from the
+    root with the heap size as fuel succeeds, and the `Parent()` chain of its result is the chain
+    of `Mime.detect` — for every input, limit and external behaviour -/
+theorem builtin_detect (ext : Ext) (x : Bytes) (lim : Nat) (leafF : Info → Info) :
+    ∃ h' r, matchH (accepts ext (header x lim) lim) leafF HeapBuild.builtinHeap.1 HeapBuild.builtinHeap.2
+        HeapBuild.builtinHeap.1.length = .ok (h', r) ∧
+      ∀ f, (detect ext Gen.builtin x lim).chain.length ≤ f →
+        parentChain h' r f = some (applyHead leafF (detect ext Gen.builtin x lim).chain) :=
+  HeapBuild.builtin_detect ext x lim leafF
 
 /-- non-vacuity: a root with two children and a grandchild, built bottom-up by `newMIME` -/
 example : ∃ t : Tree Nat, Rep exHeap 3 none t := ⟨_, HeapAbs.abs_sound (by decide : HeapAbs.abs exHeap 3 = some exTree)⟩
